@@ -39,14 +39,12 @@ def configs_for(prop, tier):
         out.append(cfg('update_2portfolios', ports=2, held={'p1': {'EQ:A': 1}, 'p2': {}}, pending=[('p1', 'EQ:A'), ('p2', 'EQ:B')], weight=900, twins=upd_tw,
                        bound='2 portfolios (p1 holds A, p2 empty), one pending order each, one update'))
         if tier == 'thorough':
-            out.append(cfg('update_2pending_same_asset_held2', held=H1b, pending=[('p1', 'EQ:A'), ('p1', 'EQ:A')], weight=3000, twins=upd_tw, validate_every=8,
-                           bound='1 portfolio holding A after 2 symbolic builder fills (partial close / flip included), 2 pending orders in A'))
-            out.append(cfg('update_2portfolios_both_holding', ports=2, held=H3, pending=[('p1', 'EQ:B'), ('p2', 'EQ:B')], weight=3000, twins=upd_tw, validate_every=8,
-                           bound='2 portfolios (p1 holds A, p2 holds B), one pending order each, one update'))
-            out.append(cfg('update_3pending', held=H2, pending=[('p1', 'EQ:B'), ('p1', 'EQ:A'), ('p1', 'EQ:B')], weight=5000, twins=upd_tw, validate_every=10,
-                           bound='1 portfolio holding A and B, 3 pending orders (B, A, B), one update'))
-            out.append(cfg('two_updates_1pending', held=H1, pending=[('p1', 'EQ:A')], op='two_updates', weight=2500, twins=upd_tw, validate_every=5,
-                           bound='1 portfolio holding A, 1 pending order, a second order submitted between two updates at symbolic increasing instants'))
+            out.append(cfg('update_1pending_held2', held=H1b, pending=[('p1', 'EQ:A')], weight=3000, twins=upd_tw, validate_every=8,
+                           bound='1 portfolio holding A after 2 symbolic builder fills (partial close / flip included), 1 pending order in A (3 fills in one asset)'))
+            out.append(cfg('update_3pending', held={'p1': {}}, pending=[('p1', 'EQ:B'), ('p1', 'EQ:A'), ('p1', 'EQ:B')], weight=5000, twins=upd_tw, validate_every=10,
+                           bound='1 empty portfolio, 3 pending orders (B, A, B), one update'))
+            out.append(cfg('two_updates_1pending', held={'p1': {}}, pending=[('p1', 'EQ:A')], op='two_updates', weight=2500, twins=upd_tw, validate_every=5,
+                           bound='1 empty portfolio, 1 pending order, a second order submitted between two updates at symbolic increasing instants'))
     H4 = {'p1': {'EQ:A': 1}, 'p2': {}}
     if prop in ('C01', 'C15', 'C02'):
         ops = ['subscribe_account', 'withdraw_account', 'subscribe_portfolio', 'withdraw_portfolio', 'submit', 'create_portfolio']
@@ -499,10 +497,6 @@ class BrokerStep(Harness):
                     obl.append(('C02:%s:%s:valued_at_most_recent_price' % (tag, x), L.ne(rep['market_value'], net * R(mark))))
             mv = L.sum([h['market_value'] for h in pa['holdings'].values()]) if pa['holdings'] else 0
             obl.append(('C02:%s:market_value_is_sum_and_equity_is_cash_plus_value' % tag, L.Or(L.ne(pa['mv'], mv), L.ne(pa['eq'], R(pa['cash']) + R(pa['mv'])))))
-            # marks must be requested for the update time
-            for cx in o['dh_calls']:
-                if cx[0] == rnd and cx[1] == 'mid':
-                    obl.append(('C05:%s:mark_requested_for_update_time' % tag, L.Not(L.teq(cx[2], t))))
 
     def _op_two_updates(self, L, i, o, b, a, obl):
         if o['raised'] is not None:
